@@ -329,7 +329,11 @@ int main(int argc, char** argv)
         // the scheduling loop treats every max_busy_loop_count-th phase of a worker specially
         static char const* BUSY[] = {"2000", "3", "7", "31", "120"};
         std::string a3 = std::string("--pika:ini=pika.max_busy_loop_count=") + BUSY[R.below(5)];
-        std::vector<char const*> av = {argv[0], a1.c_str(), a2.c_str(), a3.c_str()};
+        // a small limit on the number of thread objects per queue: further staged tasks are converted only
+        // when nothing else is runnable (many programs here have most of their tasks blocked on children)
+        static char const* MAXT[] = {"1000", "1000", "1000", "3", "8", "20"};
+        std::string a4 = std::string("--pika:ini=pika.thread_queue.max_thread_count=") + MAXT[R.below(6)];
+        std::vector<char const*> av = {argv[0], a1.c_str(), a2.c_str(), a3.c_str(), a4.c_str()};
         for (int i = 5; i < argc; ++i) av.push_back(argv[i]);
         ev("start").i("inc", inc).i("threads", threads).s("sched", sched).i("main", with_main).i("rv", rv).i("ntasks", ntasks).done();
         program* PP = P.get();
